@@ -135,6 +135,7 @@ def run(ck):
                 counts["not-in-model:" + str(u)[:40]] += 1
     runs += unusual_context_oracle(ck, report)
     runs += feedback_oracle(ck, report, rng, 12 if thorough else 4)
+    runs += after_failed_run_oracle(ck)
     bad, errs = tl.evaluate("C10", texts)
     for k, rc, out in errs:
         ck.corr_problem("correspondence shard %d did not evaluate (rc=%s)" % (k, rc), out)
@@ -223,6 +224,58 @@ def unusual_context_oracle(ck, report):
                               {"kind": "unusual-context", "scenario": name, "detail": detail, "untraced": list(plain), "traced": list(traced)})
                 break
     return n + len(scen)
+
+
+def after_failed_run_oracle(ck):
+    """Direct oracle: a run of one Pipeline object that FAILS while it carries run metadata (a launch's TraceContext, index,
+    context), then an ordinary run of the same object.  The trace of the second run must equal, after normalisation, the trace
+    a fresh Pipeline writes for the same payload: nothing of the failed run may be attached to it."""
+    import os, shutil, tempfile
+    from semantiva.context_processors import ContextType
+    from semantiva.pipeline import Payload, Pipeline
+    from semantiva.trace.drivers.jsonl import JsonlTraceDriver
+    from semantiva.trace.runtime import TraceContext
+    pg.setup_impl()
+    cfg = [{"processor": "FloatValueDataSource"}, {"processor": "FloatMultiplyOperation", "parameters": {"factor": 2.0}}]
+    n = 0
+    for detail in tl.DETAILS[:2]:
+        d = tempfile.mkdtemp(prefix="verif_c10af_")
+        try:
+            def read(path):
+                return [json.loads(l) for l in open(path, encoding="utf-8").read().splitlines() if l.strip()]
+            p1 = os.path.join(d, "a.ser.jsonl")
+            pipe = Pipeline([dict(c) for c in cfg], trace=JsonlTraceDriver(p1, detail=detail))
+            tctx = TraceContext()
+            tctx.set_run_space_fk(spec_id="s" * 64, launch_id="l-verif-failed", attempt=1, inputs_id=None)
+            pipe.set_run_metadata({"trace_context": tctx, "run_space_index": 7, "run_space_context": {"value": None}})
+            try:
+                pipe.process(Payload(None, ContextType({})))       # `value` is missing: the run fails at node 1
+                failed = False
+            except Exception:  # noqa
+                failed = True
+            k1 = len(read(p1))
+            pipe.process(Payload(None, ContextType({"value": 3.0})))
+            second = read(p1)[k1:]
+            p2 = os.path.join(d, "b.ser.jsonl")
+            Pipeline([dict(c) for c in cfg], trace=JsonlTraceDriver(p2, detail=detail)).process(Payload(None, ContextType({"value": 3.0})))
+            fresh = read(p2)
+        except Exception as ex:  # noqa
+            ck.corr_problem("after-failed-run oracle could not run", repr(ex))
+            continue
+        finally:
+            shutil.rmtree(d, ignore_errors=True)
+        n += 3
+        if not failed:
+            ck.corr_problem("after-failed-run oracle: the first run was expected to fail (missing key)", "")
+            continue
+        diff = tl.first_diff(tl.normalise(second), tl.normalise(fresh))
+        if diff is not None:
+            ck.fail_input("C10:trace-differs:run-after-a-failed-run-with-metadata:%s" % tl.generic_path(diff),
+                          "a run of one Pipeline object after a FAILED run that carried launch metadata vs a fresh Pipeline on the same payload: "
+                          "normalised traces differ at %s (second run's pipeline_start carries %s)"
+                          % (diff, {k: second[0].get(k) for k in ("run_space_launch_id", "run_space_index") if second and k in second[0]}),
+                          {"kind": "after-failed-run", "config": cfg, "detail": detail})
+    return n
 
 
 def feedback_oracle(ck, report, rng, n):
